@@ -23,7 +23,7 @@ def graphs(draw, max_edges=8, features=None):
             pools['p2'] = draw(st.integers(1, 3))
     nedges = draw(st.integers(1, max_edges))
     for ei in range(nedges):
-        phony = f['phony'] and draw(st.integers(0, 9)) == 9
+        phony = f['phony'] and draw(st.integers(0, 5)) == 5
         sub = "d%d/" % (ei % 2) if (f['subdirs'] and draw(st.integers(0, 5)) == 5) else ""
         if phony:
             outs = ["ph%d" % ei]
@@ -38,11 +38,12 @@ def graphs(draw, max_edges=8, features=None):
                 return []
             return draw(st.lists(st.sampled_from(pool_), min_size=min(lo, len(pool_)), max_size=hi, unique=True))
 
-        exp = pick(avail, 0 if (phony and draw(st.integers(0, 3)) == 3) else 1, 2)
+        only_oo = phony and draw(st.integers(0, 3)) == 3      # 'build hdrs: phony || h1 h2' (order-depends alias)
+        exp = [] if only_oo else pick(avail, 0 if (phony and draw(st.integers(0, 4)) == 4) else 1, 3)
         rest = [a for a in avail if a not in exp]
-        imp = pick(rest, 0, 1) if draw(st.integers(0, 2)) == 2 else []
+        imp = pick(rest, 0, 2) if (not only_oo and draw(st.integers(0, 2)) == 2) else []
         rest = [a for a in rest if a not in imp]
-        oo = pick(rest, 0, 1) if draw(st.integers(0, 2)) == 2 else []
+        oo = pick(rest, 1 if only_oo else 0, 3) if (only_oo or draw(st.integers(0, 2)) == 2) else []
         rest = [a for a in rest if a not in oo]
         e = dict(outs=outs, iouts=iouts, phony=phony, exp=exp, imp=imp, oo=oo, vals=[], restat=False, generator=False,
                  deps='', hidden=[], variant='v0', pool='', rsp=None, dd=None, depfile_layout=0)
@@ -167,8 +168,12 @@ def build_op(fail=False):
 
 def change_op():
     return st.one_of(
-        st.fixed_dictionaries(dict(op=st.just('edit'), a=st.integers(0, 30))),
-        st.fixed_dictionaries(dict(op=st.just('edit'), a=st.integers(0, 30))),
+        # content from a small shared pool (c<3: two files may get equal content, an edit may restore old content) or unique
+        st.fixed_dictionaries(dict(op=st.just('edit'), a=st.integers(0, 30), c=st.integers(0, 5))),
+        st.fixed_dictionaries(dict(op=st.just('edit'), a=st.integers(0, 30), c=st.integers(0, 5))),
+        st.fixed_dictionaries(dict(op=st.just('rehide'), a=st.integers(0, 30), b=st.integers(0, 30), c=st.integers(0, 5))),
+        st.fixed_dictionaries(dict(op=st.just('wipe_outs'))),
+        st.fixed_dictionaries(dict(op=st.just('swap_hidden_same_content'), a=st.integers(0, 30), b=st.integers(0, 30))),
         st.fixed_dictionaries(dict(op=st.just('touch'), a=st.integers(0, 30))),
         st.fixed_dictionaries(dict(op=st.just('del_out'), a=st.integers(0, 30))),
         st.fixed_dictionaries(dict(op=st.just('variant'), a=st.integers(0, 30), b=st.integers(0, 2))),
